@@ -200,7 +200,8 @@ def _lint_file_worker(args: tuple[Path, Path, dict]) -> list[dict]:
     try:
         # Create isolated orchestrator for this worker process
         orchestrator = Orchestrator(project_root=project_root, config=config)
-        violations = orchestrator.lint_file(file_path)
+        # (per-file step only: the parent process feeds and finalizes the cross-file rules)
+        violations = orchestrator._lint_file_with_rules(file_path, None)  # pylint: disable=protected-access
         # Convert to dicts for pickling
         return [v.to_dict() for v in violations]
     except Exception as error:
@@ -320,7 +321,11 @@ class Orchestrator:  # thailint: ignore[srp]
         Returns:
             List of violations found in the file.
         """
-        return self._lint_file_with_rules(file_path, None)
+        violations = self._lint_file_with_rules(file_path, None)
+        # A single-file call is a complete run: the rules that analyse across files report what
+        # they found in this file and start the next call empty
+        violations.extend(self._finalize_rules())
+        return violations
 
     def _lint_file_with_rules(
         self, file_path: Path, only_rules: list[BaseLintRule] | None
@@ -380,7 +385,7 @@ class Orchestrator:  # thailint: ignore[srp]
         violations = []
 
         for file_path in file_paths:
-            violations.extend(self.lint_file(file_path))
+            violations.extend(self._lint_file_with_rules(file_path, None))
 
         # Call finalize() on all rules after processing all files
         for rule in self.registry.list_all():
@@ -511,7 +516,7 @@ class Orchestrator:  # thailint: ignore[srp]
         file_paths = _collect_files_fast(dir_path, recursive)
 
         for file_path in file_paths:
-            violations.extend(self.lint_file(file_path))
+            violations.extend(self._lint_file_with_rules(file_path, None))
 
         # Call finalize() on all rules after processing all files
         for rule in self.registry.list_all():
